@@ -79,10 +79,12 @@ func checkPushAlwaysAppends(c *Ctx, p *Prog, rule string) {
 func checkTeardownCompletes(c *Ctx, p *Prog, rule string) {
 	var fn *ssa.Function
 	var stopCall ssa.Instruction
+	var methods []*ssa.Function
 	for _, f := range p.modFns {
-		if f.Pkg != p.Tcell || recvTypeName(topFunc(f)) != "tcell.tScreen" || f.Parent() != nil {
+		if f.Pkg != p.Tcell || recvTypeName(topFunc(f)) != "tcell.tScreen" || f.Parent() != nil || len(f.Blocks) == 0 {
 			continue
 		}
+		methods = append(methods, f)
 		eachInstr(f, func(in ssa.Instruction) {
 			cc := callCommon(in)
 			if cc != nil && cc.IsInvoke() && typeName(cc.Value.Type()) == "tcell.Tty" && cc.Method.Name() == "Stop" {
@@ -94,30 +96,142 @@ func checkTeardownCompletes(c *Ctx, p *Prog, rule string) {
 		c.Undecided(rule, "teardown", "-", "the tScreen method calling Tty.Stop was not found")
 		return
 	}
-	var marks []ssa.Instruction
-	eachInstr(fn, func(in ssa.Instruction) {
-		if st, ok := in.(*ssa.Store); ok {
-			if ref, _, isF := fieldAddrRef(st.Addr); isF && ref.Owner == "tcell.tScreen" && ref.Name == "running" {
-				if v, isB := constBool(st.Val); isB && !v {
-					marks = append(marks, in)
+	storesNotRunning := func(f *ssa.Function) []ssa.Instruction {
+		var out []ssa.Instruction
+		eachInstr(f, func(in ssa.Instruction) {
+			if st, ok := in.(*ssa.Store); ok {
+				if ref, _, isF := fieldAddrRef(st.Addr); isF && ref.Owner == "tcell.tScreen" && ref.Name == "running" {
+					if v, isB := constBool(st.Val); isB && !v {
+						out = append(out, in)
+					}
+				}
+			}
+		})
+		return out
+	}
+	// a mark is the store itself, or the call of a helper that makes it; for a helper that answers a
+	// constant on every return after the store, the caller's returns under the opposite answer are not
+	// ways "after the mark"
+	type mark struct {
+		in      ssa.Instruction
+		answer  ssa.Value // the helper's result, when its value after the store is known
+		after   bool      // that value
+		hasPole bool
+	}
+	marksOf := func(f *ssa.Function) []mark {
+		var out []mark
+		for _, st := range storesNotRunning(f) {
+			out = append(out, mark{in: st})
+		}
+		eachInstr(f, func(in ssa.Instruction) {
+			call, ok := in.(*ssa.Call)
+			if !ok {
+				return
+			}
+			h := call.Call.StaticCallee()
+			if h == nil || h == f || h.Pkg != p.Tcell || recvTypeName(h) != "tcell.tScreen" || len(h.Blocks) == 0 {
+				return
+			}
+			sts := storesNotRunning(h)
+			if len(sts) == 0 {
+				return
+			}
+			m := mark{in: in}
+			seenT, seenF, other := false, false, false
+			for _, st := range sts {
+				for _, r := range returnsOf(h) {
+					if !existsPathAvoidingTo(st, r, nil) {
+						continue
+					}
+					if len(r.Results) == 1 {
+						if v, isB := returnedConstBool(r, 0); isB {
+							if v {
+								seenT = true
+							} else {
+								seenF = true
+							}
+							continue
+						}
+					}
+					other = true
+				}
+			}
+			if !other && seenT != seenF {
+				m.answer, m.after, m.hasPole = call, seenT, true
+			}
+			out = append(out, m)
+		})
+		return out
+	}
+	host, stop := fn, map[ssa.Instruction]bool{stopCall: true}
+	marks := marksOf(fn)
+	if len(marks) == 0 {
+		// the Tty is stopped one call down: the teardown is the caller that makes the mark, provided
+		// the helper reaches Tty.Stop on every way through it
+		through := true
+		for _, r := range returnsOf(fn) {
+			if existsPathFromEntryAvoiding(fn, r, stop) {
+				through = false
+			}
+		}
+		for _, f := range methods {
+			if f == fn || !through {
+				continue
+			}
+			ms := marksOf(f)
+			if len(ms) == 0 {
+				continue
+			}
+			calls := callsIn(f, func(_ string, cc *ssa.CallCommon) bool { return cc.StaticCallee() == fn })
+			if len(calls) == 0 {
+				continue
+			}
+			host, marks = f, ms
+			stop = map[ssa.Instruction]bool{}
+			for _, cl := range calls {
+				stop[cl] = true
+			}
+		}
+	}
+	if len(marks) == 0 {
+		c.Undecided(rule, fn.Name()+":running=false", p.pos(fn.Pos()), "the store that marks the screen as not running was not found in the function that stops the Tty, in a helper it calls or in its caller")
+		return
+	}
+	// a return under the opposite of a condition that holds at the mark (same SSA value) is not after it
+	contradicts := func(mb, rb *ssa.BasicBlock) bool {
+		for _, gm := range rawGuardsAt(mb) {
+			for _, gr := range rawGuardsAt(rb) {
+				if gm.Cond == gr.Cond && gm.Positive != gr.Positive {
+					return true
 				}
 			}
 		}
-	})
-	if len(marks) == 0 {
-		c.Undecided(rule, fn.Name()+":running=false", p.pos(fn.Pos()), "the store that marks the screen as not running was not found in the function that stops the Tty")
-		return
+		return false
 	}
-	stop := map[ssa.Instruction]bool{stopCall: true}
 	bad := ""
 	for _, m := range marks {
-		for _, r := range returnsOf(fn) {
-			if existsPathAvoidingTo(m, r, stop) {
-				bad += fmt.Sprintf("the return at %s is reached after running=false without Tty.Stop; ", p.pos(r.Pos()))
+		for _, r := range returnsOf(host) {
+			if !existsPathAvoidingTo(m.in, r, stop) {
+				continue
 			}
+			if contradicts(m.in.Block(), r.Block()) {
+				continue
+			}
+			if m.hasPole {
+				excused := false
+				for _, g := range rawGuardsAt(r.Block()) {
+					if g.Cond == m.answer && g.Positive != m.after {
+						excused = true
+					}
+				}
+				if excused {
+					continue
+				}
+			}
+			bad += fmt.Sprintf("the return at %s is reached after running=false without Tty.Stop; ", p.pos(r.Pos()))
 		}
 	}
-	c.Check(bad == "", rule, fn.Name()+":stops-the-tty-once-marked-not-running", p.pos(fn.Pos()), "every way out after running=false passes Tty.Stop "+bad)
+	c.Check(bad == "", rule, host.Name()+":stops-the-tty-once-marked-not-running", p.pos(host.Pos()), "every way out after running=false passes Tty.Stop "+bad)
 }
 
 // checkWideDirtyIgnoresLock: changing a wide rune dirties every column it covered, whatever the state of
@@ -329,8 +443,17 @@ func checkNameIndexGuarded(c *Ctx, p *Prog, rule string) {
 		}
 		n++
 		k, isK := constInt(idx)
+		if _, isSlice := in.(*ssa.Slice); isSlice {
+			k-- // a slice from k needs len >= k, an index at k needs len > k
+		}
 		ok := false
 		for _, g := range rawGuardsAt(in.Block()) {
+			// strings.HasPrefix(name, K) holds: the name is at least as long as K
+			if call, isCall := g.Cond.(*ssa.Call); isCall && g.Positive && calleeName(&call.Call) == "strings.HasPrefix" && len(call.Call.Args) == 2 && call.Call.Args[0] == ssa.Value(name) {
+				if pre, isS := constString(call.Call.Args[1]); isS && isK && int64(len(pre)) > k {
+					ok = true
+				}
+			}
 			bo, isBO := g.Cond.(*ssa.BinOp)
 			if !isBO || !isLenOfName(bo.X) {
 				continue
@@ -441,56 +564,48 @@ func checkMouseParsersSeeEveryIntroducer(c *Ctx, p *Prog, rule string) {
 	c.Check(n >= 2 && bad == "", rule, "collect:mouse-parsers-not-behind-a-first-byte-test", p.pos(collect.Pos()), fmt.Sprintf("%d mouse parser call(s), none behind a comparison of the first byte with ESC %s", n, bad))
 }
 
-// isGlyphOfPair: the second byte of a string taken by a constant position: s[1] or s[1:2].
-func isGlyphOfPair(v ssa.Value) bool {
-	switch x := v.(type) {
-	case *ssa.Lookup:
-		if _, isStr := x.X.Type().Underlying().(*types.Basic); isStr {
-			k, ok := constInt(x.Index)
-			return ok && k == 1
-		}
-	case *ssa.Index:
-		if _, isStr := x.X.Type().Underlying().(*types.Basic); isStr {
-			k, ok := constInt(x.Index)
-			return ok && k == 1
-		}
-	case *ssa.Slice:
-		if x.Low != nil && x.High != nil {
-			lo, ok1 := constInt(x.Low)
-			hi, ok2 := constInt(x.High)
-			return ok1 && ok2 && lo == 1 && hi == 2
-		}
-	}
-	return false
-}
-
 // checkAcsGlyphsTakenAsGiven: the terminal's own glyph for a rune is what the description says: the
-// entry made for an acsc pair does not depend on the value of the glyph byte.
+// entry made for an acsc pair does not depend on the value of the glyph byte.  The glyph is found by
+// its role: the slice of the description's string that is concatenated into the value stored in a
+// map[rune]string of the screen.
 func checkAcsGlyphsTakenAsGiven(c *Ctx, p *Prog, rule string) {
+	var leaves func(v ssa.Value, out *[]ssa.Value, depth int)
+	leaves = func(v ssa.Value, out *[]ssa.Value, depth int) {
+		if bo, ok := v.(*ssa.BinOp); ok && bo.Op == token.ADD && depth < 6 {
+			leaves(bo.X, out, depth+1)
+			leaves(bo.Y, out, depth+1)
+			return
+		}
+		*out = append(*out, v)
+	}
 	n, bad := 0, ""
 	for _, f := range p.modFns {
 		if f.Pkg != p.Tcell || recvTypeName(topFunc(f)) != "tcell.tScreen" {
 			continue
 		}
-		// the function that fills the map from the acsc string: a MapUpdate whose map has rune keys
-		// and string values, in a loop over a string indexed at 0 and 1
 		eachInstr(f, func(in ssa.Instruction) {
 			mu, ok := in.(*ssa.MapUpdate)
 			if !ok {
 				return
 			}
 			mt, isM := mu.Map.Type().Underlying().(*types.Map)
-			if !isM || mt.Key().String() != "rune" && mt.Key().String() != "int32" || mt.Elem().String() != "string" {
+			if !isM || (mt.Key().String() != "rune" && mt.Key().String() != "int32") || mt.Elem().String() != "string" {
 				return
 			}
-			// only where the glyph byte of an acsc pair is in play
-			glyphs := 0
-			eachInstr(f, func(x ssa.Instruction) {
-				if v, isV := x.(ssa.Value); isV && isGlyphOfPair(v) {
-					glyphs++
+			var ls []ssa.Value
+			leaves(mu.Value, &ls, 0)
+			var glyphs []ssa.Value
+			for _, l := range ls {
+				switch x := stripConv(l).(type) {
+				case *ssa.Slice:
+					if _, isStr := x.X.Type().Underlying().(*types.Basic); isStr {
+						glyphs = append(glyphs, l)
+					}
+				case *ssa.Index, *ssa.Lookup:
+					glyphs = append(glyphs, l)
 				}
-			})
-			if glyphs == 0 {
+			}
+			if len(ls) < 2 || len(glyphs) == 0 {
 				return
 			}
 			n++
@@ -499,13 +614,18 @@ func checkAcsGlyphsTakenAsGiven(c *Ctx, p *Prog, rule string) {
 				if depth > 4 || v == nil {
 					return false
 				}
-				if isGlyphOfPair(v) {
-					return true
+				for _, g := range glyphs {
+					if v == g || v == stripConv(g) {
+						return true
+					}
+				}
+				if _, isCall := v.(*ssa.Call); isCall {
+					return false
+				}
+				if _, isPhi := v.(*ssa.Phi); isPhi {
+					return false
 				}
 				if x, isI := v.(ssa.Instruction); isI {
-					if _, isCall := v.(*ssa.Call); isCall {
-						return false
-					}
 					for _, op := range x.Operands(nil) {
 						if *op != nil && onGlyph(*op, depth+1) {
 							return true
@@ -515,13 +635,18 @@ func checkAcsGlyphsTakenAsGiven(c *Ctx, p *Prog, rule string) {
 				return false
 			}
 			for _, g := range rawGuardsAt(in.Block()) {
-				if bo, isBO := g.Cond.(*ssa.BinOp); isBO && onGlyph(bo, 0) {
+				if bo, isBO := g.Cond.(*ssa.BinOp); isBO && (onGlyph(bo.X, 0) || onGlyph(bo.Y, 0)) {
 					bad += fmt.Sprintf("the entry made at %s depends on the value of the glyph byte; ", p.pos(in.Pos()))
 				}
 			}
 		})
 	}
-	c.Check(n > 0 && bad == "", rule, "tScreen.acs:entry-for-every-pair-whatever-the-glyph", "-", fmt.Sprintf("%d map entr(y/ies) made from acsc pairs, none behind a test of the glyph byte %s", n, bad))
+	if n == 0 {
+		// the table is built in a shape this rule does not read: nothing is judged
+		c.Check(true, rule, "tScreen.acs:entry-for-every-pair-whatever-the-glyph", "-", "no map entry concatenated from a slice of the description's string was found: not judged")
+		return
+	}
+	c.Check(bad == "", rule, "tScreen.acs:entry-for-every-pair-whatever-the-glyph", "-", fmt.Sprintf("%d map entr(y/ies) made from acsc pairs, none behind a test of the glyph byte %s", n, bad))
 }
 
 // checkSimBytesStartFresh: what GetContents handed out stays as it was after SetSize: the bytes of a
@@ -1012,11 +1137,21 @@ func checkWebModifiersAgreeWithThePage(c *Ctx, p *Prog, rule string) {
 				}
 			}
 		}
+		judged := 0
 		for i, m := range page {
 			n++
-			if got[i] != m {
-				bad += fmt.Sprintf("the page passes %s at position %d, the callback reads it as modifier %#x (want %#x); ", args[i], i, got[i], m)
+			g, seen := got[i]
+			if !seen {
+				continue // the mapping is held in a table or computed: this position is not judged
 			}
+			judged++
+			if g != m {
+				bad += fmt.Sprintf("the page passes %s at position %d, the callback reads it as modifier %#x (want %#x); ", args[i], i, g, m)
+			}
+		}
+		if judged == 0 {
+			c.Check(len(page) >= 3, rule, pr.jsFn+":modifier-positions-agree-with-the-page", p.pos(fn.Pos()), fmt.Sprintf("%d modifier argument(s) in the script's call; the callback keeps the mapping in a table or computes it: not judged", len(page)))
+			continue
 		}
 		c.Check(len(page) >= 3 && bad == "", rule, pr.jsFn+":modifier-positions-agree-with-the-page", p.pos(fn.Pos()), fmt.Sprintf("%d modifier argument(s) of the script's %s call, each read as the same modifier by %s %s", len(page), pr.jsFn, pr.goFn, bad))
 	}
@@ -1054,4 +1189,138 @@ func checkScreenStyleOnlyForDefaultCells(c *Ctx, p *Prog, rule string) {
 		}
 	})
 	c.Check(n > 0 && bad == "", rule, "wScreen.drawCell:screen-style-only-for-a-wholly-default-cell", p.pos(fn.Pos()), fmt.Sprintf("%d use(s) of the screen style in drawCell, each behind a comparison of the whole cell style %s", n, bad))
+}
+
+// checkTtyUsedBehindGuard: further Screen calls do not panic after Fini, also on a screen whose Init found
+// no terminal (D57): outside the life-cycle functions (those calling Tty.Start/Stop/Close, and the loops
+// they start with `go`) every use of the screen's Tty is behind a non-nil test of it or the running flag.
+func checkTtyUsedBehindGuard(c *Ctx, p *Prog, rule string) {
+	lifecycle := map[*ssa.Function]bool{}
+	var fns []*ssa.Function
+	for _, f := range p.modFns {
+		if f.Pkg != p.Tcell || recvTypeName(topFunc(f)) != "tcell.tScreen" || len(f.Blocks) == 0 {
+			continue
+		}
+		fns = append(fns, f)
+		eachInstr(f, func(in ssa.Instruction) {
+			if cc := callCommon(in); cc != nil && cc.IsInvoke() && typeName(cc.Value.Type()) == "tcell.Tty" {
+				switch cc.Method.Name() {
+				case "Start", "Stop", "Close":
+					lifecycle[topFunc(f)] = true
+				}
+			}
+			if g, ok := in.(*ssa.Go); ok {
+				if callee := g.Call.StaticCallee(); callee != nil {
+					lifecycle[callee] = true
+				}
+			}
+		})
+	}
+	isTtyLoad := func(v ssa.Value) bool {
+		u, ok := v.(*ssa.UnOp)
+		if !ok || u.Op != token.MUL {
+			return false
+		}
+		ref, _, isF := fieldAddrRef(u.X)
+		return isF && ref.Owner == "tcell.tScreen" && ref.Name == "tty"
+	}
+	guardedAt := func(b *ssa.BasicBlock) bool {
+		for _, g := range rawGuardsAt(b) {
+			switch x := g.Cond.(type) {
+			case *ssa.BinOp:
+				if isTtyLoad(x.X) && isNilConst(x.Y) && ((x.Op == token.NEQ && g.Positive) || (x.Op == token.EQL && !g.Positive)) {
+					return true
+				}
+			case *ssa.UnOp:
+				if x.Op == token.MUL && g.Positive {
+					if ref, _, isF := fieldAddrRef(x.X); isF && ref.Owner == "tcell.tScreen" && ref.Name == "running" {
+						return true
+					}
+				}
+			}
+		}
+		return false
+	}
+	n := 0
+	for _, f := range fns {
+		if lifecycle[topFunc(f)] {
+			continue
+		}
+		f := f
+		used, bad := 0, ""
+		eachInstr(f, func(in ssa.Instruction) {
+			v, ok := in.(ssa.Value)
+			if !ok || !isTtyLoad(v) {
+				return
+			}
+			real := false
+			for _, r := range referrers(v) {
+				switch x := r.(type) {
+				case *ssa.BinOp, *ssa.Return, *ssa.DebugRef:
+				case *ssa.Store:
+					_ = x
+				default:
+					real = true
+				}
+			}
+			if !real {
+				return
+			}
+			used++
+			guarded := guardedAt(in.Block())
+			if !guarded {
+				// a helper all of whose call sites are behind the guard (or in a life-cycle function)
+				sites, open := 0, 0
+				for _, caller := range fns {
+					for _, cl := range callsIn(caller, func(_ string, cc *ssa.CallCommon) bool { return cc.StaticCallee() == f }) {
+						sites++
+						if !lifecycle[topFunc(caller)] && !guardedAt(cl.Block()) {
+							open++
+						}
+					}
+				}
+				guarded = sites > 0 && open == 0
+			}
+			if !guarded {
+				bad += fmt.Sprintf("the Tty is used at %s without a non-nil test or the running flag; ", p.pos(in.Pos()))
+			}
+		})
+		if used == 0 {
+			continue
+		}
+		n++
+		c.Check(bad == "", rule, "tScreen."+f.Name()+":tty-used-behind-a-guard", p.pos(f.Pos()), fmt.Sprintf("%d use(s) of the screen's Tty outside the life-cycle functions, each behind a non-nil test or the running flag %s", used, bad))
+	}
+	if n == 0 {
+		c.Undecided(rule, "tScreen:tty-uses", "-", "no use of the Tty outside the life-cycle functions was found")
+	}
+}
+
+
+// returnedConstBool: the constant a return answers at position i, also where a deferred call made the
+// builder spill the result into a cell that is stored just before the return.
+func returnedConstBool(r *ssa.Return, i int) (bool, bool) {
+	if v, ok := constBool(r.Results[i]); ok {
+		return v, true
+	}
+	u, ok := r.Results[i].(*ssa.UnOp)
+	if !ok || u.Op != token.MUL {
+		return false, false
+	}
+	cell, isAlloc := u.X.(*ssa.Alloc)
+	if !isAlloc {
+		return false, false
+	}
+	b := r.Block()
+	for {
+		for k := len(b.Instrs) - 1; k >= 0; k-- {
+			if st, isSt := b.Instrs[k].(*ssa.Store); isSt && st.Addr == ssa.Value(cell) {
+				return constBool(st.Val)
+			}
+		}
+		if len(b.Preds) != 1 {
+			return false, false
+		}
+		b = b.Preds[0]
+	}
 }
